@@ -259,16 +259,25 @@ func c14Render(src string) (string, error) {
 // conversion table and built-ins (one vector)
 func c14Tables(v *c14Vec) Result {
 	for _, c := range v.Conv {
-		src := "{{ cv" + c.Param + "(" + c.Arg + ") }}"
-		out, err := c14Render(src)
-		sig := map[string]interface{}{"kind": "convert", "param": c.Param, "arg": c.Arg}
-		if err != nil && strings.Contains(err.Error(), "PANIC") {
-			sig["kind"] = "panic"
-			return Result{Sig: sig, Detail: src + ": " + err.Error(), Key: "tables"}
+		// the plain call, and the same argument vector spelt with the first argument piped in and with the
+		// last argument piped into a slot (ArgVector: all three have one normal form)
+		srcs := []string{"{{ cv" + c.Param + "(" + c.Arg + ") }}"}
+		if args := strings.Split(c.Arg, ", "); c.Arg != "" {
+			n := len(args)
+			srcs = append(srcs, "{{ "+args[0]+" | cv"+c.Param+"("+strings.Join(args[1:], ", ")+") }}",
+				"{{ "+args[n-1]+" | cv"+c.Param+"("+strings.Join(append(append([]string{}, args[:n-1]...), "_"), ", ")+") }}")
 		}
-		if (c.Expect == "ERR") != (err != nil) || (err == nil && out != c.Expect) {
-			return Result{Sig: sig, Observed: out, Expected: c.Expect, Key: "tables",
-				Detail: fmt.Sprintf("%s rendered %q (err %v), contract says %q", src, out, err, c.Expect)}
+		for form, src := range srcs {
+			out, err := c14Render(src)
+			sig := map[string]interface{}{"kind": "convert", "param": c.Param, "arg": c.Arg, "form": form}
+			if err != nil && strings.Contains(err.Error(), "PANIC") {
+				sig["kind"] = "panic"
+				return Result{Sig: sig, Detail: src + ": " + err.Error(), Key: "tables"}
+			}
+			if (c.Expect == "ERR") != (err != nil) || (err == nil && out != c.Expect) {
+				return Result{Sig: sig, Observed: out, Expected: c.Expect, Key: "tables",
+					Detail: fmt.Sprintf("%s rendered %q (err %v), contract says %q", src, out, err, c.Expect)}
+			}
 		}
 	}
 	for _, bi := range v.Builtins {
